@@ -150,7 +150,12 @@ int main(int argc, char **argv) {
         else if (!strcmp(c, "set_parameter(NULL,cfg)")) rc = svt_av1_enc_set_parameter(NULL, &CFG);
         else if (!strcmp(c, "init(h)")) { rc = svt_av1_enc_init(H); had_init = 1; }
         else if (!strcmp(c, "init(NULL)")) rc = svt_av1_enc_init(NULL);
-        else if (!strcmp(c, "stream_header(h,&p)")) rc = svt_av1_enc_stream_header(H, &HDR);
+        else if (!strcmp(c, "stream_header(h,&p)")) {
+            EbBufferHeaderType *p = NULL;
+            rc                    = svt_av1_enc_stream_header(H, &p);
+            if (p && HDR) svt_av1_enc_stream_header_release(p); /* the harness keeps one header at most */
+            else if (p) HDR = p;
+        }
         else if (!strcmp(c, "stream_header(h,NULL)")) rc = svt_av1_enc_stream_header(H, NULL);
         else if (!strcmp(c, "stream_header(NULL,&p)")) { EbBufferHeaderType *p = NULL; rc = svt_av1_enc_stream_header(NULL, &p); }
         else if (!strcmp(c, "stream_header_release(p)")) { rc = svt_av1_enc_stream_header_release(HDR); HDR = NULL; }
